@@ -515,6 +515,7 @@ pub struct DecRun {
     pub env_calls: usize,
     pub ops: Vec<Op>,
     pub events: usize,
+    pub panicked_in_contract: bool,
 }
 
 impl DecRun {
@@ -590,6 +591,7 @@ pub fn drive_dec(spec: &DecSpec, mode: DecMode, source: &mut dyn OpSource, mut p
         env_calls: 0,
         ops: Vec::new(),
         events: 0,
+        panicked_in_contract: false,
     };
     let mut stale = Stale { out8: Vec::new(), out16: Vec::new() };
     let len = spec.stream.len();
@@ -755,6 +757,17 @@ pub fn drive_dec(spec: &DecSpec, mode: DecMode, source: &mut dyn OpSource, mut p
                     run.viols.append(&mut o.viols);
                 }
                 if let Some(p) = outs.iter().find_map(|o| o.panicked.clone()) {
+                    // lock-step replicas must agree on panicking, too
+                    if nrep > 1 && outs.iter().any(|o| o.panicked.is_none()) && p != "manual recovery impossible" {
+                        let (prop, oracle) = match mode {
+                            DecMode::Replicas => ("C18", "replica-divergence"),
+                            DecMode::Peek => ("C19", "peek-disturbed-decoder"),
+                            _ => ("C09", "builtin-vs-manual-call"),
+                        };
+                        let who: Vec<usize> = outs.iter().enumerate().filter(|(_, o)| o.panicked.is_some()).map(|(i, _)| i).collect();
+                        run.viols.push(viol(prop, oracle, format!("call {}: replica(s) {:?} panicked ({}) while the other(s) returned normally", run.calls.len(), who, p)));
+                    }
+                    run.panicked_in_contract = in_contract;
                     run.aborted = Some(format!("panic: {}", p));
                     run.consumed = consumed;
                     run.ops = source.recorded().to_vec();
